@@ -467,13 +467,16 @@ def run(tier: str, seed: int) -> dict:
     share = {"deltas": 0.55, "stack": 0.45}
     worst = 0.0
     counts = {"deltas": 0, "stack": 0}
+    exhausted = {}
     t_used = 0.0
     import time
 
     for op, gen in (("deltas", _delta_cases(tier, seed)), ("stack", _stack_cases(tier, seed))):
         t_end = time.time() + budget * share[op]
+        exhausted[op] = True
         for case in gen:
             if time.time() > t_end or col.too_many_failures():
+                exhausted[op] = False
                 break
             if op == "deltas":
                 fails, nontrivial, slack = _check_deltas(case)
@@ -484,6 +487,7 @@ def run(tier: str, seed: int) -> dict:
             col.case(_key(case), nontrivial=nontrivial, sample=case if counts[op] in (40, 400) else None)
             for clause, msg in fails:
                 col.fail(clause, case, msg)
+    col.note(f"structural grid of this tier visited completely (one seeded choice of the remaining parameters per grid point): {exhausted}")
     col.note(f"cases: deltas {counts['deltas']}, stack {counts['stack']} (each 2-D stack case also runs 3 singleton-axis N-D twins)")
     col.note(f"worst float64 delta error relative to max|filt| * sum|x| over the filter support: {worst:.3g} (tolerance {RTOL:g}); float32 adds one float32 ulp; int16 must equal trunc of the exact value (both neighbours accepted only when the exact value is within tolerance of an integer)")
     return col.result(
@@ -493,7 +497,7 @@ def run(tier: str, seed: int) -> dict:
         "Stack: all V x pad x in_place on ten shapes), then a seeded shuffle of the full structural grid, ranks interleaved, until the time budget.",
         bound="BOUNDED: ranks 1..4 (Stack 2..4), extents from {0,1,2,3,5(,7,8)} with 0 only on non-filtered axes for Deltas, num_deltas 0..3, context windows 1..3, "
         "pad modes edge/constant(0 and 3)/reflect (+ none for Stack), num_vectors 1..4, float64/float32/int16, C/F/strided layouts; "
-        f"time-boxed sample of that grid ({budget:.0f} s), not the whole grid",
+        f"every point of the structural grid (shape, axes, concatenate / num_vectors, pad) gets ONE seeded choice of the other parameters; time-boxed ({budget:.0f} s), see notes for whether the grid was finished",
         assumptions=ASSUMPTIONS,
     )
 
